@@ -139,10 +139,52 @@ def check(ctx):
     oracle(ctx)
 
 
+def inplace_step_probe(ctx):
+    """a custom step that updates its argument IN PLACE, or always hands back one re-used buffer: the value is still the mean
+    over the states visited (round-3 seed C16/8: the states were collected by reference and stacked at the end)"""
+    from xitorch.integrate import mcquad
+    for style in ("in-place", "reused-buffer", "fresh"):
+        for ns, nb in ((5, 2), (3, 1), (8, 4)):
+            buf = torch.zeros(1, dtype=DT)
+            seen = []
+
+            def step(x, *p):
+                new = x * -0.9 + 0.3
+                if style == "in-place":
+                    x.copy_(new)
+                    out = x
+                elif style == "reused-buffer":
+                    buf.copy_(new)
+                    out = buf
+                else:
+                    out = new
+                seen.append(out.detach().clone())
+                return out
+            x0 = torch.tensor([0.4], dtype=DT)
+            fq = lambda x: x * x + torch.sin(x)
+            try:
+                v = mcquad(fq, lambda x: -(x * x).sum(), x0.clone(), method="mhcustom", custom_step=step, nsamples=ns, nburnout=nb)
+            except Exception as e:
+                ctx.fail("oracle", "mcquad:mhcustom:%s-step:exception" % style, {"nsamples": ns, "nburnout": nb}, repr(e)[:200], "the sample mean")
+                continue
+            ctx.count(("inplace-step", style, ns, nb))
+            # the reference chain, computed independently
+            x = x0.clone()
+            for _ in range(nb - 1):
+                x = x * -0.9 + 0.3
+            xs = [x]
+            for _ in range(ns - 1):
+                xs.append(xs[-1] * -0.9 + 0.3)
+            want = torch.stack([fq(t) for t in xs]).mean(dim=0)
+            if not torch.allclose(v, want, rtol=1e-12, atol=1e-14):
+                ctx.fail("oracle", "mcquad:mhcustom:%s-step" % style, {"nsamples": ns, "nburnout": nb, "step": "x <- -0.9 x + 0.3, " + style}, v, want)
+
+
 def oracle(ctx):
     import xitorch as xt
     from xitorch.integrate import mcquad
     rng = ctx.rng
+    inplace_step_probe(ctx)
     step = lambda x, *p: x * -0.9 + 0.3
     for rep in range(ctx.n(4, 20)):
         ns, nb = rng.randrange(2, 9), rng.randrange(1, 5)
@@ -298,6 +340,54 @@ def oracle(ctx):
     if any(not torch.allclose(x_.to(DT), y_.to(DT), rtol=1e-10, atol=1e-12) for x_, y_ in zip(vals["EditableModule"], vals["pure"])):
         ctx.fail("oracle", "mcquad:pparams-next-to-object-params", {"integrand": "EditableModule method", "log_p": "explicit parameter"},
                  [float(t) for t in vals["EditableModule"]], [float(t) for t in vals["pure"]])
+    # tuple-valued integrand whose parameter is held by an object, gradients taken with create_graph=True and once more (round-3
+    # seed C16/9: the tuple branch made the wrapper a sibling of the log-density instead of the integrand, so the copies installed
+    # for a graph-recording backward never reached the object of f)
+    class FHoldT(xt.EditableModule):
+        def __init__(self, a_):
+            self.a = a_
+
+        def f(self, x):
+            return torch.exp(-self.a * x * x).sum(), (self.a * self.a * x).sum()
+
+        def getparamnames(self, methodname, prefix=""):
+            return [prefix + "a"]
+
+    class NetT(torch.nn.Module):
+        def __init__(self, a_):
+            super().__init__()
+            self.a = torch.nn.Parameter(a_.detach().clone())
+
+        def forward(self, x):
+            return torch.exp(-self.a * x * x).sum(), (self.a * self.a * x).sum()
+    valt = {}
+    for kind in ("pure", "EditableModule", "nn.Module"):
+        a_ = torch.tensor(0.3, dtype=DT, requires_grad=True)
+        s_ = torch.tensor(1.2, dtype=DT, requires_grad=True)
+        logp_ = lambda x, s: -(x * x).sum() * s
+        kwt = dict(pparams=(s_,), method="mhcustom", custom_step=pstep, nsamples=12, nburnout=2)
+        if kind == "pure":
+            vt = mcquad(lambda x, a: (torch.exp(-a * x * x).sum(), (a * a * x).sum()), logp_, torch.zeros(1, dtype=DT), fparams=(a_,), **kwt)
+            leaf = a_
+        elif kind == "EditableModule":
+            vt = mcquad(FHoldT(a_).f, logp_, torch.zeros(1, dtype=DT), fparams=(), **kwt)
+            leaf = a_
+        else:
+            net_ = NetT(a_)
+            vt = mcquad(net_.forward, logp_, torch.zeros(1, dtype=DT), fparams=(), **kwt)
+            leaf = net_.a
+        tot = vt[0] + 0.5 * vt[1]
+        g1a, g1s = torch.autograd.grad(tot, (leaf, s_), create_graph=True, allow_unused=True)
+        z = lambda t: torch.zeros((), dtype=DT) if t is None else t
+        g2a = torch.autograd.grad(z(g1a) + z(g1s), leaf, allow_unused=True)[0] if (z(g1a) + z(g1s)).requires_grad else None
+        valt[kind] = [tot.detach(), z(g1a).detach(), z(g1s).detach(), z(g2a).detach()]
+        ctx.count(("tuple-integrand-object-params", kind), nontrivial=True)
+    for kind in ("EditableModule", "nn.Module"):
+        for nm, x_, y_ in zip(("value", "d/da", "d/ds", "d2/da"), valt[kind], valt["pure"]):
+            if not torch.allclose(x_, y_, rtol=1e-9, atol=1e-12):
+                ctx.fail("oracle", "mcquad:tuple-integrand:%s:%s" % (kind, nm), {"integrand": "tuple-valued method of " + kind, "gradient": "create_graph=True, then once more"},
+                         float(x_), float(y_))
+                break
     # tensors that require grad but do not enter f get a zero (or absent) gradient, not an exception (seeded defect C16/6)
     for case in ("unused-fparam", "module-with-unused-parameter"):
         c_ = torch.tensor(0.5, dtype=DT, requires_grad=True)
